@@ -336,6 +336,15 @@ def exit_project(root: str, run: Dict[str, Any]) -> Tuple[str, int, bool]:
         head = ['"""Module."""', "import re", '__docformat__ = "%s"' % ("epytext" if epy else "restructuredtext"), ""]
         if shape == "func":
             src = head + ["def f(a%s):" % (", sigboom_param" if c["expr"] else "")] + doc + [""]
+        elif shape in ("inhF", "inhL"):     # a method whose docstring is inherited by an override in another module
+            mdoc = ['        """'] + [("        " + b) if b else "" for b in body] + ['        """']
+            src = head + ["class Base%d:" % i, '    """Base."""', "    def meth(self, a):"] + mdoc + [""]
+            sub = ['"""Module of the subclass."""', "from .m%d import Base%d" % (i, i), "", "class Sub%d(Base%d):" % (i, i), '    """Subclass."""',
+                   "    def meth(self, a):", "        return a", ""]
+            # pages are written in the order of the module names: a<i> before m<i> before z<i>
+            Path(pkg, ("a%d.py" if shape == "inhF" else "z%d.py") % i).write_text("\n".join(sub) + "\n")
+            if c["field"]:
+                planted += 1                 # the field is handled once for the method and once for the override
         elif shape in ("dup", "dup2"):      # the class is defined twice: one definition carries the problems, the other is clean
             clean = ['    """', "    Clean definition.", '    """']
             first, second = (doc, clean) if shape == "dup" else (clean, doc)
